@@ -156,5 +156,49 @@ where
 //@end
 }
 
+// ------------------------------------------------------------------ Line
+/// contract of `Line: Intersects<Coord>` (proved in unit c02_intersects: obligation C02.V.line_intersects_coord)
+pub trait Intersects<Rhs = Self> {
+    spec fn meets(&self, rhs: &Rhs) -> bool;
+    fn intersects(&self, rhs: &Rhs) -> (r: bool)
+        ensures r == self.meets(rhs);
+}
+impl<T> Intersects<Coord<T>> for Line<T>
+where
+    T: GeoNum,
+{
+    open spec fn meets(&self, rhs: &Coord<T>) -> bool { on_segment(pt(*rhs), pt(self.start), pt(self.end)) }
+    #[verifier::external_body]
+    fn intersects(&self, rhs: &Coord<T>) -> (r: bool) { unimplemented!() }
+}
+
+impl<T> CoordinatePosition for Line<T>
+where
+    T: GeoNum,
+{
+    type Scalar = T;
+    // OGC: the boundary of a line is its two end points; a degenerate line is a point (no boundary)
+    open spec fn interior_has(&self, p: P2) -> bool {
+        if pt(self.start) == pt(self.end) { p == pt(self.start) }
+        else { on_segment(p, pt(self.start), pt(self.end)) && p != pt(self.start) && p != pt(self.end) }
+    }
+    open spec fn boundary_hits(&self, p: P2) -> nat {
+        if pt(self.start) != pt(self.end) && (p == pt(self.start) || p == pt(self.end)) { 1 } else { 0 }
+    }
+    open spec fn pos_pre(&self, p: P2) -> bool { true }
+//@fn geo/src/algorithm/coordinate_position.rs | impl<T> CoordinatePosition for Line<T> where T: GeoNum, | calculate_coordinate_position | id=C02.V.line_position
+//@before 1 `if self.start == self.end {`
+        proof {
+            T::ax_obeys();
+            T::ax_cmp(self.start.x, self.end.x); T::ax_cmp(self.start.y, self.end.y);
+            T::ax_cmp(coord.x, self.start.x); T::ax_cmp(coord.y, self.start.y);
+            T::ax_cmp(coord.x, self.end.x); T::ax_cmp(coord.y, self.end.y);
+            T::ax_cmp(self.start.x, coord.x); T::ax_cmp(self.start.y, coord.y);
+            assert(cross(pt(self.start), pt(self.end), pt(self.start)) == 0) by (nonlinear_arith);
+            assert(cross(pt(self.start), pt(self.end), pt(self.end)) == 0) by (nonlinear_arith);
+        }
+//@end
+}
+
 } // verus!
 fn main() {}
